@@ -73,9 +73,11 @@ def run_case(spec):
             res.failures.append(Failure("not-isomorphic", f"{label}; converted from {root_name}: {diff}", case=(spec, root_name)))
         n_objs = iso.count_objects(root)
         n_money = sum(1 for _ in _moneys(root))
-        if len(state.memo) != n_objs - n_money:
+        # a polyline's mapping builds one mapped point per coordinate pair while converting
+        n_points = sum(len(o.coords) for o in _reachable(root) if type(o).__name__ == "OPoly")
+        if len(state.memo) != n_objs - n_money + n_points:
             res.failures.append(Failure("dao-count", f"{label}; root {root_name}: {len(state.memo)} DAOs for "
-                                                     f"{n_objs - n_money} distinct mapped objects", case=(spec, root_name)))
+                                                     f"{n_objs - n_money + n_points} distinct mapped objects", case=(spec, root_name)))
     # all nodes with one shared state
     try:
         state = ToDAOState()
@@ -95,6 +97,25 @@ def run_case(spec):
     if not res.failures and has_sharing_or_cycle(spec):
         res.sample = {"graph": label, "roots": list(objs)}
     return res
+
+
+def _reachable(root):
+    import dataclasses
+    seen = {}
+
+    def rec(x):
+        if isinstance(x, (list, tuple)):
+            for e in x:
+                rec(e)
+            return
+        if isinstance(x, iso.SCALARS) or id(x) in seen:
+            return
+        seen[id(x)] = x
+        if dataclasses.is_dataclass(x):
+            for f in dataclasses.fields(x):
+                rec(getattr(x, f.name))
+    rec(root)
+    return list(seen.values())
 
 
 def _moneys(root):
